@@ -72,9 +72,12 @@ def plan(tier, seed):
     return shards
 
 
-OPT_PATHS = ["/a%20b", "/a b", "/\\u0061", "/a", "/a%2Fb/0", "/%7E", "/x%20\\u0062"]
+OPT_PATHS = ["/a%20b", "/a b", "/\\u0061", "/a", "/a%2Fb/0", "/%7E", "/x%20\\u0062",
+             # texts whose single decoding still holds an escape sequence: decoding must happen exactly once
+             "/%2541", "/\\u005cu0061", "/%5Cu0061", "/%255Cu0061"]
 OPT_DOC = {"a b": [1], "a": [2], "a%20b": [3], "\\u0061": [4], "a/b": [5], "a%2Fb": [6], "~": [7], "%7E": [8], "x b": [9],
-           "x%20b": [10], "x \\u0062": [11], "x%20\\u0062": [12]}
+           "x%20b": [10], "x \\u0062": [11], "x%20\\u0062": [12], "%2541": [13], "%41": [14], "A": [15], "\\u005cu0061": [16],
+           "%5Cu0061": [17], "%255Cu0061": [18]}
 
 
 def _opt_tokens(path, ue, ud):
@@ -94,7 +97,7 @@ def _options(acc):
     """Routes must agree under every decoder-option combination, whatever was built before in this process."""
     import itertools
 
-    from jsonpath import JSONPatch
+    from jsonpath import JSONPatch, JSONPointer
 
     combos = [(True, False), (True, True), (False, False), (False, True)]
     for order in itertools.permutations(combos):
@@ -109,7 +112,9 @@ def _options(acc):
                     exp = ("error",)
                 routes = [("dicts", lambda: JSONPatch([dict(op)], unicode_escape=ue, uri_decode=ud)),
                           ("builder", lambda: JSONPatch(unicode_escape=ue, uri_decode=ud).add(op["path"], 0)),
-                          ("json", lambda: JSONPatch(json.dumps([op]), unicode_escape=ue, uri_decode=ud))]
+                          ("json", lambda: JSONPatch(json.dumps([op]), unicode_escape=ue, uri_decode=ud)),
+                          ("builder-pointer", lambda: JSONPatch(unicode_escape=ue, uri_decode=ud).add(
+                              JSONPointer(op["path"], unicode_escape=ue, uri_decode=ud), 0))]
                 for name, mk in routes:
                     bad = None
                     try:
